@@ -693,6 +693,32 @@ func runC01(c *Ctx) {
 			}
 			key := "stree bulk loader:." + a.fld.Name() + " half"
 			call, ok := val.(*ssa.Call)
+			// the same halves given as index bounds: build(nodes, lo, mid) / build(nodes, mid+1, hi), mid the index
+			// of the node whose children are being set
+			if ok && len(call.Call.Args) == 3 && len(ex.Params) == 3 && origin(staticCallee(&call.Call)) == origin(ex) && call.Call.Args[0] == ssa.Value(ex.Params[0]) {
+				var rootIdx ssa.Value
+				if ld, isLd := a.fa.X.(*ssa.UnOp); isLd && ld.Op == token.MUL {
+					if ia, isIA := ld.X.(*ssa.IndexAddr); isIA && ia.X == ssa.Value(ex.Params[0]) {
+						rootIdx = ia.Index
+					}
+				}
+				if rootIdx != nil {
+					lo, hi := call.Call.Args[1], call.Call.Args[2]
+					lower := lo == ssa.Value(ex.Params[1]) && hi == rootIdx
+					upper := false
+					if bo, isB := lo.(*ssa.BinOp); isB && bo.Op == token.ADD && bo.X == rootIdx && isConstInt(bo.Y, 1) && hi == ssa.Value(ex.Params[2]) {
+						upper = true
+					}
+					if lower || upper {
+						want := lower
+						if m.side(a.fld) == "large" {
+							want = upper
+						}
+						c.judge(want, "R-ORIENT", key, a.in.Pos(), "sorted lower half under the small side, upper half under the large side", "the bulk loader hangs the "+map[bool]string{true: "lower", false: "upper"}[lower]+" half of the sorted keys under ."+a.fld.Name()+", against the in-order orientation")
+						continue
+					}
+				}
+			}
 			if !ok || len(call.Call.Args) != 1 {
 				c.undecided("R-ORIENT", key, a.in.Pos(), "child is not built by a recursive call on a sub-slice")
 				continue
